@@ -4,10 +4,10 @@ package main
 // GLFW, GL and PortAudio are the pure-Go stand-ins of harness/stubs.
 
 import (
-	"math"
 	"bytes"
 	"context"
 	"io/ioutil"
+	"math"
 	"os"
 	"strings"
 	"sync"
@@ -23,7 +23,7 @@ import (
 type gbInst struct {
 	gb  *gameboy.Gameboy
 	ser *bytes.Buffer
-	win *glfw.Window // the stub window of this instance's display (nil without video)
+	win *glfw.Window      // the stub window of this instance's display (nil without video)
 	pa  *portaudio.Stream // the stub stream of this instance's speakers (nil without audio)
 }
 
@@ -38,9 +38,11 @@ func gbNew(idx int, path string, ser, aud, vid bool) {
 	}
 	glfw.Current = nil
 	portaudio.Last = nil
-	portaudio.SlowEvery = 7
 	inst.gb = gameboy.New(cfg)
 	inst.pa = portaudio.Last
+	if inst.pa != nil {
+		inst.pa.SetBacklog(inst.gb.VSampleBacklog)
+	}
 	inst.win = glfw.Current
 	gbs[idx] = inst
 }
